@@ -5,7 +5,7 @@ import core
 import rt
 
 LEVEL = "model_checking"
-DOMAIN = list(range(-1, 7)) + [99]
+DOMAIN = list(range(-2, 7)) + [99]
 
 
 def val(prim, n):
@@ -13,7 +13,7 @@ def val(prim, n):
 
 
 def item_attr(it, prim, i, mode):
-    lit = {"l0": 0, "l1": 1, "l2": 2, "l3": 3}
+    lit = {"l0": 0, "l1": 1, "l2": 2, "l3": 3, "ln1": -1}
     if it in lit:
         return f"#[literal({val(prim, lit[it])})]"
     if it == "lK":
@@ -25,7 +25,8 @@ def item_attr(it, prim, i, mode):
         p13 = "1..=3" if prim == "int" else '"s1" | "s3"'
         p50 = "50..=60" if prim == "int" else '"s50" | "s60"'
         return f"#[pattern({p50})] #[pattern({ty}| {p13})]" + (f" #[into({{{val(prim, 70 + i)}}})]" if mode == "map" else "")
-    pat = {"p13": "1..=3" if prim == "int" else '"s1" | "s3"', "p24": f"{val(prim, 2)} | {val(prim, 4)}", "ple1": "..=1", "pall": "_", "pK": "K4"}[it]
+    pat = {"p13": "1..=3" if prim == "int" else '"s1" | "s3"', "p24": f"{val(prim, 2)} | {val(prim, 4)}", "ple1": "..=1", "pall": "_", "pK": "K4",
+           "pn10": "-1..=0" if prim == "int" else '"s-1" | "s0"', "px13": "1..3"}[it]
     return f"#[pattern({pat})]" + (f" #[into({{{val(prim, 70 + i)}}})]" if mode == "map" else "")
 
 
@@ -79,9 +80,9 @@ def run(tier, seed):
     ctx.cov["programs"] = len(cases)
     ctx.cov["programs_compiled"] = stats.get("compiled")
     ctx.cov["distinct_nontrivial"] = len({(json.dumps(r["in"], sort_keys=True), r["prop"], r.get("x"), r.get("i"), r.get("f")) for r in recs})
-    ctx.cov["rule"] = ("TLC enumerates enums of <= MaxVariants variants, each a literal 0..3 (also written as a constant path) or a pattern (range, alternatives, open range, "
+    ctx.cov["rule"] = ("TLC enumerates enums of <= MaxVariants variants, each a literal -1..3 (also written as a constant path) or a pattern (closed / half-open / negative range, alternatives, open range, "
                        "wildcard), distinct or overlapping, x integer / &'static str counterpart x from-only / both directions x default case {value, error}, and proves the "
-                       "round-trip theorem on the specification; the real proc-macro compiles each (infallible and fallible), From is executed on EVERY value of -1..6 and 99, "
+                       "round-trip theorem on the specification; the real proc-macro compiles each (infallible and fallible), From is executed on EVERY value of -2..6 and 99, "
                        "Into on every variant, and the round trip; TLC judges each against FromExp / IntoExp / RoundTrip.")
     ctx.cov["exhaustive"] = True
     for rr in recs[:2]:
